@@ -442,6 +442,19 @@ func (c *HostClient) Do(ctx context.Context, req *protocol.Request, resp *protoc
 		}
 
 		wait := retry.Delay(attempts, err, retryCfg)
+		// The pause is part of the call: a request timeout bounds it as well.
+		if reqTimeout := req.Options().RequestTimeout(); reqTimeout > 0 {
+			left := reqTimeout - time.Since(req.Options().StartTime())
+			if left <= 0 {
+				if err == nil {
+					err = errTimeout
+				}
+				break
+			}
+			if wait > left {
+				wait = left
+			}
+		}
 		// Retry after wait time
 		time.Sleep(wait)
 	}
